@@ -46,45 +46,28 @@ Theorem C11_ZShape_inverse : forall s e h y : R, s < e -> 0 < y < h ->
 Proof. exact ZShape_inverse. Qed.
 Print Assumptions C11_ZShape_inverse.
 
-(* ---- 2. z is monotone in y, in the direction of the term *)
-Theorem C11_Arc_z_monotone_increasing : forall s e h y1 y2 : R, s < e -> 0 < h -> 0 < y1 -> y1 <= y2 ->
-  Arc_tsukamoto s e h y1 <= Arc_tsukamoto s e h y2.
-Proof. exact Arc_z_monotone_inc. Qed.
-Print Assumptions C11_Arc_z_monotone_increasing.
-Theorem C11_Arc_z_monotone_decreasing : forall s e h y1 y2 : R, e < s -> 0 < h -> 0 < y1 -> y1 <= y2 ->
-  Arc_tsukamoto s e h y2 <= Arc_tsukamoto s e h y1.
-Proof. exact Arc_z_monotone_dec. Qed.
-Print Assumptions C11_Arc_z_monotone_decreasing.
+(* ---- 2. z is monotone in y, in the direction of the term (increasing term: z increasing; decreasing: z decreasing) *)
+Theorem C11_Arc_z_monotone : forall s e h y1 y2 : R, 0 < h -> 0 < y1 -> y1 <= y2 -> y2 < h ->
+  (s < e -> Arc_tsukamoto s e h y1 <= Arc_tsukamoto s e h y2) /  (e < s -> Arc_tsukamoto s e h y2 <= Arc_tsukamoto s e h y1).
+Proof. intros s e h y1 y2 Hh H1 H12 H2; split; intros Hd; [apply Arc_z_monotone_inc | apply Arc_z_monotone_dec]; assumption. Qed.
+Print Assumptions C11_Arc_z_monotone.
 
-Theorem C11_Concave_z_monotone_increasing : forall i e h y1 y2 : R, i < e -> 0 < h -> 0 < y1 -> y1 <= y2 ->
-  Concave_tsukamoto i e h y1 <= Concave_tsukamoto i e h y2.
-Proof. exact Concave_z_monotone_inc. Qed.
-Print Assumptions C11_Concave_z_monotone_increasing.
-Theorem C11_Concave_z_monotone_decreasing : forall i e h y1 y2 : R, e < i -> 0 < h -> 0 < y1 -> y1 <= y2 ->
-  Concave_tsukamoto i e h y2 <= Concave_tsukamoto i e h y1.
-Proof. exact Concave_z_monotone_dec. Qed.
-Print Assumptions C11_Concave_z_monotone_decreasing.
+Theorem C11_Concave_z_monotone : forall i e h y1 y2 : R, 0 < h -> 0 < y1 -> y1 <= y2 -> y2 < h ->
+  (i < e -> Concave_tsukamoto i e h y1 <= Concave_tsukamoto i e h y2) /  (e < i -> Concave_tsukamoto i e h y2 <= Concave_tsukamoto i e h y1).
+Proof. intros i e h y1 y2 Hh H1 H12 H2; split; intros Hd; [apply Concave_z_monotone_inc | apply Concave_z_monotone_dec]; assumption. Qed.
+Print Assumptions C11_Concave_z_monotone.
 
-Theorem C11_Ramp_z_monotone_increasing : forall s e h y1 y2 : R, s < e -> 0 < h -> y1 <= y2 ->
-  Ramp_tsukamoto s e h y1 <= Ramp_tsukamoto s e h y2.
-Proof. exact Ramp_z_monotone_inc. Qed.
-Print Assumptions C11_Ramp_z_monotone_increasing.
-Theorem C11_Ramp_z_monotone_decreasing : forall s e h y1 y2 : R, e < s -> 0 < h -> y1 <= y2 ->
-  Ramp_tsukamoto s e h y2 <= Ramp_tsukamoto s e h y1.
-Proof. exact Ramp_z_monotone_dec. Qed.
-Print Assumptions C11_Ramp_z_monotone_decreasing.
+Theorem C11_Ramp_z_monotone : forall s e h y1 y2 : R, 0 < h -> 0 < y1 -> y1 <= y2 -> y2 < h ->
+  (s < e -> Ramp_tsukamoto s e h y1 <= Ramp_tsukamoto s e h y2) /  (e < s -> Ramp_tsukamoto s e h y2 <= Ramp_tsukamoto s e h y1).
+Proof. intros s e h y1 y2 Hh H1 H12 H2; split; intros Hd; [apply Ramp_z_monotone_inc | apply Ramp_z_monotone_dec]; assumption. Qed.
+Print Assumptions C11_Ramp_z_monotone.
 
-Theorem C11_Sigmoid_z_monotone_increasing : forall i s h y1 y2 : R,
-  0 < s -> 0 < h -> 0 < y1 -> y1 <= y2 -> y2 < h ->
-  Sigmoid_tsukamoto i s h y1 <= Sigmoid_tsukamoto i s h y2.
-Proof. exact Sigmoid_z_monotone_inc. Qed.
-Print Assumptions C11_Sigmoid_z_monotone_increasing.
-Theorem C11_Sigmoid_z_monotone_decreasing : forall i s h y1 y2 : R,
-  s < 0 -> 0 < h -> 0 < y1 -> y1 <= y2 -> y2 < h ->
-  Sigmoid_tsukamoto i s h y2 <= Sigmoid_tsukamoto i s h y1.
-Proof. exact Sigmoid_z_monotone_dec. Qed.
-Print Assumptions C11_Sigmoid_z_monotone_decreasing.
+Theorem C11_Sigmoid_z_monotone : forall i s h y1 y2 : R, 0 < h -> 0 < y1 -> y1 <= y2 -> y2 < h ->
+  (0 < s -> Sigmoid_tsukamoto i s h y1 <= Sigmoid_tsukamoto i s h y2) /  (s < 0 -> Sigmoid_tsukamoto i s h y2 <= Sigmoid_tsukamoto i s h y1).
+Proof. intros i s h y1 y2 Hh H1 H12 H2; split; intros Hd; [apply Sigmoid_z_monotone_inc | apply Sigmoid_z_monotone_dec]; assumption. Qed.
+Print Assumptions C11_Sigmoid_z_monotone.
 
+(* SShape is the increasing member of the pair, ZShape the decreasing one *)
 Theorem C11_SShape_z_monotone : forall s e h y1 y2 : R, s < e -> 0 < h -> 0 < y1 -> y1 <= y2 -> y2 < h ->
   SShape_tsukamoto s e h y1 <= SShape_tsukamoto s e h y2.
 Proof. exact SShape_z_monotone. Qed.
@@ -95,19 +78,15 @@ Proof. exact ZShape_z_monotone. Qed.
 Print Assumptions C11_ZShape_z_monotone.
 
 (* ---- 3. z lies in the support of the edge ("finite" in the only sense R can express) *)
-Theorem C11_Arc_z_in_support_increasing : forall s e h y : R, s < e -> 0 < y < h -> s < Arc_tsukamoto s e h y < e.
-Proof. exact Arc_z_in_support_inc. Qed.
-Print Assumptions C11_Arc_z_in_support_increasing.
-Theorem C11_Arc_z_in_support_decreasing : forall s e h y : R, e < s -> 0 < y < h -> e < Arc_tsukamoto s e h y < s.
-Proof. exact Arc_z_in_support_dec. Qed.
-Print Assumptions C11_Arc_z_in_support_decreasing.
+Theorem C11_Arc_z_in_support : forall s e h y : R, 0 < y < h ->
+  (s < e -> s < Arc_tsukamoto s e h y < e) /\ (e < s -> e < Arc_tsukamoto s e h y < s).
+Proof. intros s e h y Hy; split; intros Hd; [apply Arc_z_in_support_inc | apply Arc_z_in_support_dec]; assumption. Qed.
+Print Assumptions C11_Arc_z_in_support.
 
-Theorem C11_Ramp_z_in_support_increasing : forall s e h y : R, s < e -> 0 < y < h -> s < Ramp_tsukamoto s e h y < e.
-Proof. exact Ramp_z_in_support_inc. Qed.
-Print Assumptions C11_Ramp_z_in_support_increasing.
-Theorem C11_Ramp_z_in_support_decreasing : forall s e h y : R, e < s -> 0 < y < h -> e < Ramp_tsukamoto s e h y < s.
-Proof. exact Ramp_z_in_support_dec. Qed.
-Print Assumptions C11_Ramp_z_in_support_decreasing.
+Theorem C11_Ramp_z_in_support : forall s e h y : R, 0 < y < h ->
+  (s < e -> s < Ramp_tsukamoto s e h y < e) /\ (e < s -> e < Ramp_tsukamoto s e h y < s).
+Proof. intros s e h y Hy; split; intros Hd; [apply Ramp_z_in_support_inc | apply Ramp_z_in_support_dec]; assumption. Qed.
+Print Assumptions C11_Ramp_z_in_support.
 
 Theorem C11_SShape_z_in_support : forall s e h y : R, s < e -> 0 < y < h -> s < SShape_tsukamoto s e h y < e.
 Proof. exact SShape_z_in_support. Qed.
@@ -117,26 +96,16 @@ Proof. exact ZShape_z_in_support. Qed.
 Print Assumptions C11_ZShape_z_in_support.
 
 (* Concave: unbounded on the inflection side; z is on the curved side of `end` *)
-Theorem C11_Concave_z_in_support_increasing : forall i e h y : R, i < e -> 0 < y < h -> Concave_tsukamoto i e h y < e.
-Proof. exact Concave_z_in_support_inc. Qed.
-Print Assumptions C11_Concave_z_in_support_increasing.
-Theorem C11_Concave_z_in_support_decreasing : forall i e h y : R, e < i -> 0 < y < h -> e < Concave_tsukamoto i e h y.
-Proof. exact Concave_z_in_support_dec. Qed.
-Print Assumptions C11_Concave_z_in_support_decreasing.
+Theorem C11_Concave_z_in_support : forall i e h y : R, 0 < y < h ->
+  (i < e -> Concave_tsukamoto i e h y < e) /\ (e < i -> e < Concave_tsukamoto i e h y).
+Proof. intros i e h y Hy; split; intros Hd; [apply Concave_z_in_support_inc | apply Concave_z_in_support_dec]; assumption. Qed.
+Print Assumptions C11_Concave_z_in_support.
 
 (* Sigmoid: unbounded support; z is on the side of the inflection that y's half of the height selects *)
-Theorem C11_Sigmoid_z_side_increasing : forall i s h y : R, 0 < s -> 0 < y < h ->
-  (y < h / 2 -> Sigmoid_tsukamoto i s h y < i) /\
-  (y = h / 2 -> Sigmoid_tsukamoto i s h y = i) /\
-  (h / 2 < y -> i < Sigmoid_tsukamoto i s h y).
-Proof. exact Sigmoid_z_side_inc. Qed.
-Print Assumptions C11_Sigmoid_z_side_increasing.
-Theorem C11_Sigmoid_z_side_decreasing : forall i s h y : R, s < 0 -> 0 < y < h ->
-  (y < h / 2 -> i < Sigmoid_tsukamoto i s h y) /\
-  (y = h / 2 -> Sigmoid_tsukamoto i s h y = i) /\
-  (h / 2 < y -> Sigmoid_tsukamoto i s h y < i).
-Proof. exact Sigmoid_z_side_dec. Qed.
-Print Assumptions C11_Sigmoid_z_side_decreasing.
+Theorem C11_Sigmoid_z_side : forall i s h y : R, 0 < y < h ->
+  (0 < s -> (y < h / 2 -> Sigmoid_tsukamoto i s h y < i) /            (y = h / 2 -> Sigmoid_tsukamoto i s h y = i) /            (h / 2 < y -> i < Sigmoid_tsukamoto i s h y)) /  (s < 0 -> (y < h / 2 -> i < Sigmoid_tsukamoto i s h y) /            (y = h / 2 -> Sigmoid_tsukamoto i s h y = i) /            (h / 2 < y -> Sigmoid_tsukamoto i s h y < i)).
+Proof. intros i s h y Hy; split; intros Hd; [apply Sigmoid_z_side_inc | apply Sigmoid_z_side_dec]; assumption. Qed.
+Print Assumptions C11_Sigmoid_z_side.
 
 (* ---- 4. tsukamoto is defined exactly for the terms that declare themselves monotonic *)
 Theorem C11_tsukamoto_defined_iff_monotonic : forall s : shape R,
@@ -155,17 +124,12 @@ Proof. exact tsukamoto_refused_iff_not_monotonic. Qed.
 Print Assumptions C11_tsukamoto_refused_iff_not_monotonic.
 
 (* the class-level table (is_monotonic() on a default instance, `tsukamoto` in the class __dict__) *)
-Theorem C11_term_table_flags_agree :
-  forallb (fun r => match r with (_, _, _, m, t) => Bool.eqb m t end) term_table = true.
-Proof. exact term_table_flags_agree. Qed.
-Print Assumptions C11_term_table_flags_agree.
-
-Theorem C11_term_table_monotonic_names :
-  map (fun r => match r with (n, _, _, _, _) => n end)
+Theorem C11_term_table : 
+  forallb (fun r => match r with (_, _, _, m, t) => Bool.eqb m t end) term_table = true /  map (fun r => match r with (n, _, _, _, _) => n end)
       (filter (fun r => match r with (_, _, _, m, _) => m end) term_table)
   = ["Arc"; "Concave"; "Ramp"; "Sigmoid"; "SShape"; "ZShape"]%string.
-Proof. exact term_table_monotonic_names. Qed.
-Print Assumptions C11_term_table_monotonic_names.
+Proof. exact (conj term_table_flags_agree term_table_monotonic_names). Qed.
+Print Assumptions C11_term_table.
 
 (* ---- shape-level summary: one statement for all six terms through the generated dispatchers *)
 Theorem C11_shape_inverse : forall (s : shape R) (z : R -> R) (y : R),
@@ -198,41 +162,18 @@ Theorem C11_shape_inverse_elementwise : forall (s : shape R) (z : R -> R) (ys : 
 Proof. exact shape_inverse_map. Qed.
 Print Assumptions C11_shape_inverse_elementwise.
 
-Theorem C11_Arc_inverse_elementwise : forall (s e h : R) (ys : list R), s <> e ->
-  Forall (fun y => 0 < y < h) ys -> map (Arc_membership s e h) (map (Arc_tsukamoto s e h) ys) = ys.
-Proof. intros s e h ys Hv; apply map_inverse; intros y Hy; apply Arc_inverse; assumption. Qed.
-Print Assumptions C11_Arc_inverse_elementwise.
-Theorem C11_Concave_inverse_elementwise : forall (i e h : R) (ys : list R), i <> e ->
-  Forall (fun y => 0 < y < h) ys -> map (Concave_membership i e h) (map (Concave_tsukamoto i e h) ys) = ys.
-Proof. intros i e h ys Hv; apply map_inverse; intros y Hy; apply Concave_inverse; assumption. Qed.
-Print Assumptions C11_Concave_inverse_elementwise.
-Theorem C11_Ramp_inverse_elementwise : forall (s e h : R) (ys : list R), s <> e ->
-  Forall (fun y => 0 < y < h) ys -> map (Ramp_membership s e h) (map (Ramp_tsukamoto s e h) ys) = ys.
-Proof. intros s e h ys Hv; apply map_inverse; intros y Hy; apply Ramp_inverse; assumption. Qed.
-Print Assumptions C11_Ramp_inverse_elementwise.
-Theorem C11_Sigmoid_inverse_elementwise : forall (i s h : R) (ys : list R), s <> 0 ->
-  Forall (fun y => 0 < y < h) ys -> map (Sigmoid_membership i s h) (map (Sigmoid_tsukamoto i s h) ys) = ys.
-Proof. intros i s h ys Hv; apply map_inverse; intros y Hy; apply Sigmoid_inverse; assumption. Qed.
-Print Assumptions C11_Sigmoid_inverse_elementwise.
-Theorem C11_SShape_inverse_elementwise : forall (s e h : R) (ys : list R), s < e ->
-  Forall (fun y => 0 < y < h) ys -> map (SShape_membership s e h) (map (SShape_tsukamoto s e h) ys) = ys.
-Proof. intros s e h ys Hv; apply map_inverse; intros y Hy; apply SShape_inverse; assumption. Qed.
-Print Assumptions C11_SShape_inverse_elementwise.
-Theorem C11_ZShape_inverse_elementwise : forall (s e h : R) (ys : list R), s < e ->
-  Forall (fun y => 0 < y < h) ys -> map (ZShape_membership s e h) (map (ZShape_tsukamoto s e h) ys) = ys.
-Proof. intros s e h ys Hv; apply map_inverse; intros y Hy; apply ZShape_inverse; assumption. Qed.
-Print Assumptions C11_ZShape_inverse_elementwise.
+(* the same for any pair of kernels: per-term instances are `C11_elementwise _ _ h ys (C11_<Term>_inverse ...)` *)
+Theorem C11_elementwise : forall (mu z : R -> R) (h : R) (ys : list R),
+  (forall y, 0 < y < h -> mu (z y) = y) -> Forall (fun y => 0 < y < h) ys -> map mu (map z ys) = ys.
+Proof. exact map_inverse. Qed.
+Print Assumptions C11_elementwise.
 
 (* ---- the condition start < end of SShape/ZShape is necessary: with start > end the composition is
         constant (0 resp. h) on all of (0,h), so the inverse law fails for every y *)
-Theorem C11_SShape_reversed_not_inverse : forall s e h y : R, e < s -> 0 < y < h ->
-  SShape_membership s e h (SShape_tsukamoto s e h y) = 0.
-Proof. exact SShape_reversed_not_inverse. Qed.
-Print Assumptions C11_SShape_reversed_not_inverse.
-Theorem C11_ZShape_reversed_not_inverse : forall s e h y : R, e < s -> 0 < y < h ->
-  ZShape_membership s e h (ZShape_tsukamoto s e h y) = h.
-Proof. exact ZShape_reversed_not_inverse. Qed.
-Print Assumptions C11_ZShape_reversed_not_inverse.
+Theorem C11_SZ_reversed_constant : forall s e h y : R, e < s -> 0 < y < h ->
+  SShape_membership s e h (SShape_tsukamoto s e h y) = 0 /  ZShape_membership s e h (ZShape_tsukamoto s e h y) = h.
+Proof. intros s e h y Hd Hy; split; [apply SShape_reversed_not_inverse | apply ZShape_reversed_not_inverse]; assumption. Qed.
+Print Assumptions C11_SZ_reversed_constant.
 Theorem C11_SShape_reversed_refuted : exists s e h y : R,
   e < s /\ 0 < h <= 1 /\ 0 < y < h /\ SShape_membership s e h (SShape_tsukamoto s e h y) <> y.
 Proof. exact SShape_reversed_refuted. Qed.
